@@ -80,6 +80,12 @@ def run_mutant(args):
         for f in files:
             if not compiles(root, f):
                 return dict(id=m["id"], prop=m["prop"], status="error", detail="mutant does not compile")
+        if os.environ.get("XV_SELFTEST_RESPELL"):
+            # detection must survive a behaviour-preserving re-spelling of the *mutated* tree
+            import respell
+            for t in os.environ["XV_SELFTEST_RESPELL"].split(","):
+                for pth in respell._files(root):
+                    respell._write(pth, respell.TRANSFORMS[t](respell._read(pth), pth))
         rc, out = run_check(m["prop"], root)
         rules = m.get("expect_rule")
         rules = [rules] if isinstance(rules, str) else (rules or [])
@@ -122,7 +128,11 @@ if __name__ == "__main__":
     ap.add_argument("--repo", default="/repo")
     ap.add_argument("--jobs", type=int, default=16)
     ap.add_argument("-v", action="store_true")
+    ap.add_argument("--respell", default="", help="comma-separated respell transforms applied to every mutated tree")
     a = ap.parse_args()
+    if a.respell:
+        os.environ["XV_SELFTEST_RESPELL"] = a.respell
+        sys.path.insert(0, HERE)
     res = run_all(a.repo, set(p.upper() for p in a.props) or None, a.jobs)
     bad = 0
     from collections import Counter
